@@ -5,4 +5,4 @@ cd "$(dirname "$0")"
 export CARGO_NET_OFFLINE=true
 python3 tools/extract_consts.py all || true
 (cd lean && lake build)
-(cd harness && RUSTFLAGS="--cfg metrique_verif" cargo build --offline --bins)
+(cd harness && RUSTFLAGS="--cfg metrique_verif" cargo build --offline --bins && RUSTFLAGS="--cfg metrique_verif" cargo build --offline --release --bins)
